@@ -7,6 +7,7 @@ import random
 import numpy as np
 
 import common
+import prehist
 import spfiles
 from .base import Prop, exc_name
 
@@ -52,7 +53,8 @@ class C06(Prop):
         n = rng.randint(1, N - s) if sub else N - s
         g = rng.choice((1, 2, 3, 4, 7, n, n + 3, rng.randint(1, n + 1)))
         return {"op": op, "nbits": nbits, "C": C, "N": N, "splits": spfiles.splits_of(rng, N, nf), "g": g, "s": s,
-                "n": n, "none_n": (not sub), "dm": dm, "ichan": rng.randrange(C), "dseed": rng.randrange(1 << 30)}
+                "n": n, "none_n": (not sub), "dm": dm, "ichan": rng.randrange(C), "dseed": rng.randrange(1 << 30),
+                "pre": prehist.gen_pre(rng, N, s, n)}
 
     def corpus(self):
         b = {"nbits": 8, "C": 2, "N": 10, "splits": [10], "dm": 0.0, "ichan": 1, "dseed": 3}
@@ -73,6 +75,7 @@ class C06(Prop):
         d = common.tmpdir()
         files, data = make_file(case, d)
         fil = FilReader(files if len(files) > 1 else files[0])
+        prehist.run_pre(fil, case.get("pre"))
         kw = {"gulp": case["g"], "start": case["s"], "nsamps": None if case["none_n"] else case["n"], "quiet": True}
         op = case["op"]
         try:
